@@ -487,7 +487,7 @@ func verify(c Case, exp []*rt.Term, i *sut.I, path string, st *stats) error {
 			continue
 		}
 		q, names := p.QueryText()
-		got := i.Query(q, names, o.MaxAnswers, int64(200*rr.Stats.Steps+20000))
+		got := i.Query(q, names, o.MaxAnswers, rr.Stats.RealBudget())
 		if e := diff.Compare(rr, got, false); e != nil {
 			return fmt.Errorf("[%s] probe %s: %v", path, q, e)
 		}
